@@ -214,12 +214,29 @@ theorem bus_offset_serialised : Ebu.Locks.CallbacksOk Ebu.Generated.callbackFact
   ⟨Ebu.Props.C03.facts_callbacks_lock_free, Ebu.Props.C03.facts_discipline⟩
 """),
 }
-for prop, (imp, text) in EXTRAS.items():
-    if ONLY and prop not in ONLY: continue
-    path = os.path.join(LEAN, "Ebu", "Props", prop + ".lean")
-    src = open(path).read()
-    if "import " + imp not in src:
-        src = "import " + imp + "\n" + src
-    src = src.replace("end Ebu.Props.%s" % prop, text + "\nend Ebu.Props.%s" % prop)
-    open(path, "w").write(src)
+EXTRAS2 = {
+ "C10": ("Ebu.Generated.Consts", """/-- the model's memory-store offsets (`fmt20` = 20 zero-padded digits) are what the CURRENT source
+formats (`fmt.Sprintf` verb extracted from MemoryStore.Append on every run), the oldest-offset
+literal is the empty string, and the SQLite store formats and parses positions in base 10 / 64 bits -/
+theorem offset_formats_match_source :
+    Ebu.Generated.Consts.memOffsetWidth = 20 ∧ Ebu.Generated.Consts.memOffsetZeroPadded = true ∧
+    Ebu.Generated.Consts.offsetOldest = "" ∧ Ebu.Generated.Consts.sqliteFormatBase = 10 ∧
+    Ebu.Generated.Consts.sqliteParseBase = 10 ∧ Ebu.Generated.Consts.sqliteParseBits = 64 ∧
+    fmt20 = digitsW Ebu.Generated.Consts.memOffsetWidth := by
+  refine ⟨by decide, by decide, by decide, by decide, by decide, by decide, rfl⟩
+"""),
+ "C11": ("Ebu.Generated.Consts", """/-- the model's default batch size is the one in the CURRENT source (extracted from Replay) -/
+theorem default_batch_matches_source : effBatch 0 = Ebu.Generated.Consts.replayDefaultBatch ∧ effBatch (-5) = Ebu.Generated.Consts.replayDefaultBatch := by
+  decide
+"""),
+}
+for extras in (EXTRAS, EXTRAS2):
+    for prop, (imp, text) in extras.items():
+        if ONLY and prop not in ONLY: continue
+        path = os.path.join(LEAN, "Ebu", "Props", prop + ".lean")
+        src = open(path).read()
+        if "import " + imp not in src:
+            src = "import " + imp + "\n" + src
+        src = src.replace("end Ebu.Props.%s" % prop, text + "\nend Ebu.Props.%s" % prop)
+        open(path, "w").write(src)
 print("generated", list(SPECS) + list(LOGSPECS) + list(STATESPECS) + ["C14", "C12", "C02", "C04", "C06", "C07"])
